@@ -297,7 +297,7 @@ def shape_ok(ctx, out, K, key):
     return ctx.R.check(out.ndim == 2 and out.shape[1] == K, key, shape=list(out.shape), want_channels=K)
 
 
-def compare(ctx, out, E, B, key, n0=0, alt=None, detail=None, scale=1.0):
+def compare(ctx, out, E, B, key, n0=0, alt=None, detail=None, scale=1.0, margin=True):
     """out vs definition values E (same shape) with per-spectrum bound B. Returns 'ok' | 'truncated' | 'bad' | 'empty'."""
     R = ctx.R
     if out.shape[0] == 0:
@@ -309,7 +309,7 @@ def compare(ctx, out, E, B, key, n0=0, alt=None, detail=None, scale=1.0):
     if bool(ok.all()):
         R.check(True, key)
         pos = Bc > 0
-        if pos.any():
+        if margin and pos.any():        # margins are reported for double-precision input only (bound not widened)
             R.maximum('err_over_bound', float(np.max(np.where(pos, err / np.where(pos, Bc, 1), 0))))
         R.mark_nontrivial(bool(np.any(np.abs(E) > 100 * Bc)))
         return 'ok'
@@ -403,7 +403,7 @@ def run_oneshot(c, ctx):
     E, B = expected(x, h, cfg, 0, cnt)
     key = 'one-shot-differs-from-definition:' + ('complex-input' if is_c else 'real-input')
     st = compare(ctx, out[:cnt], E, B, key, alt=(lambda: expected(x.real, h, cfg, 0, cnt)[0]) if is_c else None,
-                 detail=dict(M=M, P=P, win=cfg['win'], dtype=c['dtype'], length=L, cache=use_cache))
+                 detail=dict(M=M, P=P, win=cfg['win'], dtype=c['dtype'], length=L, cache=use_cache), margin=prec(x) == 1.0)
     literal_points(ctx, x, h, cfg, E, 0, rng)
     fb._reset_cache()
     R.check(fb.cache is None, 'reset-did-not-clear-cache')
@@ -466,7 +466,8 @@ def run_oneshot(c, ctx):
             R.check((W - 1) * M <= cv <= nmax, 'pfb-voltages-spectrum-count', got=cv, accepted=[(W - 1) * M, nmax])
             cv = min(cv, nmax)
             Ev, Bv = expected(x, hv, cfg, 0, cv, K=P // 2 + 1)
-            compare(ctx, ov[:cv], Ev, Bv, 'pfb-voltages-differ-from-definition', detail=dict(M=M, P=P, win=cfg['win']))
+            compare(ctx, ov[:cv], Ev, Bv, 'pfb-voltages-differ-from-definition', detail=dict(M=M, P=P, win=cfg['win']),
+                    margin=prec(x) == 1.0)
 
 
 def feed_stream(ctx, fb, cfg, x, h, comp, E, B, alt_full, explicit_flag=True, tag=None):
@@ -476,6 +477,7 @@ def feed_stream(ctx, fb, cfg, x, h, comp, E, B, alt_full, explicit_flag=True, ta
     M, P = cfg['M'], cfg['P']
     MP = M * P
     T, emitted, outs = 0, 0, []
+    mg = prec(x) == 1.0
     for j, w in enumerate(comp):
         chunk = x[T * MP:(T + w) * MP].copy()
         o = np.asarray(ctx.call(fb.channelize, chunk, cache=True) if explicit_flag else ctx.call(fb.channelize, chunk))
@@ -502,14 +504,14 @@ def feed_stream(ctx, fb, cfg, x, h, comp, E, B, alt_full, explicit_flag=True, ta
                 R.count('seam_spectra_compared', seam_hi - n0)
                 st = compare(ctx, o[:seam_hi - n0], E[n0:seam_hi], B[n0:seam_hi],
                              'chunk-output-differs-from-definition:seam', n0=n0,
-                             alt=(lambda: alt_full()[n0:seam_hi]) if alt_full else None, detail=detail)
+                             alt=(lambda: alt_full()[n0:seam_hi]) if alt_full else None, detail=detail, margin=mg)
                 if st != 'bad' and n1 > seam_hi:
                     compare(ctx, o[seam_hi - n0:], E[seam_hi:n1], B[seam_hi:n1],
                             'chunk-output-differs-from-definition:interior', n0=seam_hi,
-                            alt=(lambda: alt_full()[seam_hi:n1]) if alt_full else None, detail=detail)
+                            alt=(lambda: alt_full()[seam_hi:n1]) if alt_full else None, detail=detail, margin=mg)
             else:
                 compare(ctx, o, E[n0:n1], B[n0:n1], 'chunk-output-differs-from-definition:' + ('first-call' if j == 0 else 'interior'),
-                        n0=n0, alt=(lambda: alt_full()[n0:n1]) if alt_full else None, detail=detail)
+                        n0=n0, alt=(lambda: alt_full()[n0:n1]) if alt_full else None, detail=detail, margin=mg)
         outs.append(o)
         emitted += want_cnt
         T += w
@@ -546,7 +548,8 @@ def run_compose(c, ctx):
     R.check(n_one == ctx.oneshot_count(cfg, W), 'one-shot-count-depends-on-data', got=n_one, zeros=ctx.oneshot_count(cfg, W))
     if n_one <= E.shape[0]:
         compare(ctx, one, E[:n_one], B[:n_one], 'one-shot-differs-from-definition:' + ('complex-input' if is_c else 'real-input'),
-                alt=(lambda: alt_full()[:n_one]) if is_c else None, detail=dict(M=M, P=P, win=cfg['win'], dtype=c['dtype']))
+                alt=(lambda: alt_full()[:n_one]) if is_c else None, detail=dict(M=M, P=P, win=cfg['win'], dtype=c['dtype']),
+                margin=prec(x) == 1.0)
     literal_points(ctx, x, h, cfg, E, 0, rng, npts=3)
     for comp in comps:
         fb = ctx.new_fb(cfg)
@@ -650,7 +653,7 @@ def run_script(c, ctx):
             E, B = expected(d, h, cfg, 0, cnt)
             compare(ctx, o[:cnt], E, B, 'one-shot-differs-from-definition:' + ('complex-input' if is_c else 'real-input'),
                     alt=(lambda: expected(d.real, h, cfg, 0, cnt)[0]) if is_c else None,
-                    detail=dict(M=M, P=P, win=cfg['win'], op=t, mid_stream=stream[o_idx] is not None))
+                    detail=dict(M=M, P=P, win=cfg['win'], op=t, mid_stream=stream[o_idx] is not None), margin=prec(d) == 1.0)
             continue
         # feed
         w = op[2]
@@ -683,13 +686,13 @@ def run_script(c, ctx):
         if not first and seam_hi > n0:
             R.count('seam_spectra_compared', seam_hi - n0)
             st = compare(ctx, o[:seam_hi - n0], E[:seam_hi - n0], B[:seam_hi - n0], 'chunk-output-differs-from-definition:seam',
-                         n0=n0, alt=(lambda: alt()[:seam_hi - n0]) if alt else None, detail=detail)
+                         n0=n0, alt=(lambda: alt()[:seam_hi - n0]) if alt else None, detail=detail, margin=prec(d) == 1.0)
             if st != 'bad' and n1 > seam_hi:
                 compare(ctx, o[seam_hi - n0:], E[seam_hi - n0:], B[seam_hi - n0:], 'chunk-output-differs-from-definition:interior',
-                        n0=seam_hi, alt=(lambda: alt()[seam_hi - n0:]) if alt else None, detail=detail)
+                        n0=seam_hi, alt=(lambda: alt()[seam_hi - n0:]) if alt else None, detail=detail, margin=prec(d) == 1.0)
         else:
             compare(ctx, o, E, B, 'chunk-output-differs-from-definition:' + ('first-call' if first else 'interior'), n0=n0,
-                    alt=alt, detail=detail)
+                    alt=alt, detail=detail, margin=prec(d) == 1.0)
     R.count('streams', nobj)
     # isolation: the same per-object history on a fresh object, alone, must give the same outputs
     if nobj >= 2:
